@@ -81,6 +81,22 @@ def main() -> int:
                 viols.append({"kind": "mutated", "a": kind, "g": case["e"]["op"], "case": cell,
                               "detail": f"{show(case['e'])} with {kind} leaves modified an array supplied by the caller"})
                 ctx_arrays = {n: (jnp.array(v) if not isinstance(v, complex) else v) for n, v in leaves.items()}
+    for bad in data.get("badcases", []):
+        for kind in ("numpy", "context"):
+            evaluations += 1
+            owned = []
+            expr = build(bad, kind, owned)
+            context = {n: (lambda dims, _v=v: _v) for n, v in ctx_arrays.items()}
+            cell = {"expr": show(bad), "leaf_kind": kind}
+            try:
+                r = interpreter(expr, context, [2])
+                viols.append({"kind": "unknown_accepted", "a": kind, "g": show(bad)[0], "case": cell,
+                              "detail": f"malformed expression {show(bad)} returned a value ({str(np.asarray(r).shape)}) instead of raising ValueError"})
+            except ValueError:
+                pass
+            except Exception as ex:  # noqa: BLE001
+                viols.append({"kind": "unknown_wrong_error", "a": kind, "g": show(bad)[0], "case": cell,
+                              "detail": f"malformed expression {show(bad)} raised {type(ex).__name__} instead of ValueError"})
     for head in data["unknown"]:
         evaluations += 1
         try:
